@@ -301,9 +301,14 @@ func (m *Manager) newStream(ctx context.Context, sid uint64, kind, rpc string) (
 	}
 
 	stream := drpcstream.NewWithOptions(ctx, sid, m.wr, opts)
+
+	// the stream has to be registered before it is handed to manageStreams:
+	// once it is handed over, a cancel can release the semaphore, and the next
+	// caller derives its stream id from, and waits for, the registered stream.
+	m.sbuf.Set(stream)
+
 	select {
 	case m.streams <- streamInfo{ctx: ctx, stream: stream}:
-		m.sbuf.Set(stream)
 		m.log("STREAM", stream.String)
 		return stream, nil
 
